@@ -9,7 +9,7 @@
 # bursts; the deterministic scenarios of the two repaired races stay as regression scenarios (a: public
 # callback API, b: the instrumented wakeUpPeer paused after markWorking); c: callback mode.
 import json, os, re
-from vlib import core, gen, sched
+from vlib import core, gen, sched, gosrc
 
 PROP = "C07"
 META = {
@@ -39,7 +39,7 @@ def scan_switch():
     Stream.inFallbackState maintain it?  Returns (sticky, description, error); anything that is not one of the
     known shapes is an error (= broken correspondence)."""
     try:
-        stream = open(os.path.join(core.REPO, "stream.go")).read()
+        stream = gosrc.read("stream.go")
     except OSError as ex:
         return None, None, "cannot read stream.go: %s" % ex
     flush = func_body(stream, "func (s *Stream) Flush(endStream bool) error {")
@@ -64,7 +64,7 @@ def scan_switch():
     others = []
     for f in sorted(os.listdir(core.REPO)):
         if f.endswith(".go") and not f.endswith("_test.go") and f != "stream.go":
-            n = len(re.findall(r"inFallbackState", strip_comments(open(os.path.join(core.REPO, f)).read())))
+            n = len(re.findall(r"inFallbackState", strip_comments(gosrc.read(f))))
             if n:
                 others.append((f, n))
     if others != [("session_manager.go", 1)]:
